@@ -318,3 +318,44 @@ where
     }
     results.into_iter().map(|r| r.unwrap_or(Err(Stuck::Timeout))).collect()
 }
+
+// ---------------------------------------------------------------------------------------------
+// progress monitor for the ops that run their cases one after the other on the main thread: if the
+// code under test does not return from one case (a loop inside a single poll cannot be interrupted
+// by an async timeout), the monitor writes a rows file that holds exactly that case as a violation
+// and ends the process, so that the check reports the failing input instead of timing out.
+
+static CURRENT_CASE: std::sync::Mutex<Option<(String, std::time::Instant)>> = std::sync::Mutex::new(None);
+
+/// the op is about to hand `case` to the code under test
+pub fn progress(case: &str) {
+    *CURRENT_CASE.lock().unwrap() = Some((case.replace(['\t', '\n'], " "), std::time::Instant::now()));
+}
+
+/// the op is not inside the code under test (generating, asking the model, writing)
+pub fn progress_idle() {
+    *CURRENT_CASE.lock().unwrap() = None;
+}
+
+pub fn start_monitor(opts: &Opts, op: &str, limit: std::time::Duration) {
+    let out = opts.out.clone();
+    let op = op.to_string();
+    std::thread::spawn(move || loop {
+        std::thread::sleep(std::time::Duration::from_millis(500));
+        let stuck = match &*CURRENT_CASE.lock().unwrap() {
+            Some((c, t)) if t.elapsed() > limit => Some(c.clone()),
+            _ => None,
+        };
+        if let Some(case) = stuck {
+            let _ = fs::create_dir_all(&out);
+            if let Ok(mut f) = fs::File::create(out.join(format!("{op}.rows"))) {
+                let _ = writeln!(f, "{case}\tdirect\tviolation case-does-not-return\tok");
+            }
+            if let Ok(mut f) = fs::File::create(out.join(format!("{op}.stats"))) {
+                let _ = writeln!(f, "stat\tcase_does_not_return\t1");
+                let _ = writeln!(f, "note\tthe code under test did not return within {}s on the case above; all other rows of this run were discarded", limit.as_secs());
+            }
+            std::process::exit(0);
+        }
+    });
+}
